@@ -37,7 +37,7 @@ Verdict(x) ==
     <<"extension_offer_wrong", \A i \in 1..Len(reqs) : reqs[i].offers_deflate = opt.compress>>,
     <<"user_agent_wrong", opt.agent = "" \/ \A i \in 1..Len(reqs) : HasHeader(reqs[i], "user-agent", opt.agent)>>,
     <<"connected_to_wrong_address", \A i \in 1..Len(connects) : connects[i].host = x.exp.chost /\ connects[i].port = x.exp.cport>>,
-    <<"ready_iff_correct_reply", (x.exp.verdict = "ready") = (readies = delivered) /\ (x.exp.verdict # "ready" => readies = 0)>>,
+    <<"ready_iff_correct_reply", (x.exp.verdict = "ready" => readies = delivered) /\ (x.exp.verdict # "ready" => readies = 0)>>,
     <<"oversize_reply_not_a_protocol_error", ~big \/ perrs = conns>>,
     <<"protocol_error_for_reply_within_bounds", big \/ perrs = 0>>,
     <<"incorrect_reply_not_rejected", x.exp.verdict # "rejected" \/ rejecteds = delivered>>,
